@@ -15,6 +15,7 @@ use crate::variant::*;
 use super::in_inclusive_range;
 use super::in_inclusive_range16;
 
+#[cfg_attr(feature = "hsivonen_encoding_rs_verif", derive(Debug, Clone, PartialEq, Eq, Hash))]
 pub struct ShiftJisDecoder {
     lead: Option<u8>,
 }
@@ -199,6 +200,7 @@ fn encode_kanji(bmp: u16) -> Option<(u8, u8)> {
     Some(((lead + lead_offset) as u8, (trail + trail_offset) as u8))
 }
 
+#[cfg_attr(feature = "hsivonen_encoding_rs_verif", derive(Debug, Clone, PartialEq, Eq, Hash))]
 pub struct ShiftJisEncoder;
 
 impl ShiftJisEncoder {
